@@ -390,13 +390,8 @@ def known_active(kid):
     """a recorded known-finding class only weakens a clause while it is listed (status known) in known_findings.json"""
     global _KNOWN
     if _KNOWN is None:
-        import json
-        fn = os.path.join(os.path.dirname(os.path.dirname(os.path.abspath(__file__))), 'known_findings.json')
-        try:
-            with open(fn) as f:
-                _KNOWN = {e['id'] for e in json.load(f).get('findings', []) if e.get('status') == 'known'}
-        except OSError:
-            _KNOWN = set()
+        from .check import load_known
+        _KNOWN = {k for k, e in load_known().items() if e.get('status') == 'known'}
     return kid in _KNOWN
 
 
